@@ -57,8 +57,6 @@ def run_sequence(R, g, rname, mk, seq, refined, fresh_ok=True):
 
     def fresh_rep():
         # a second representation object of the same grammar, built around a source of its own: no history at all
-        # (not for the variants whose decider object was USED before it was lent: what such a decider remembers -
-        # PositionIndependentGrowDecider.expanding - differs between two objects with different pasts)
         return mk(NativeRandomSource(7))
 
     def pick(i):
@@ -72,6 +70,10 @@ def run_sequence(R, g, rname, mk, seq, refined, fresh_ok=True):
                 elif act == "draw":
                     src.randint(0, 100)
                     src.random_float(0.0, 1.0)
+                    # the decider object the representation was built around stays in its owner's hands: it goes on being
+                    # used directly (a tree representation sharing it) between two mappings
+                    if getattr(rep, "decider", None) is not None and i % 2 == 0:
+                        used_decider(rep.decider, g, src)
                 elif act == "mutate" and genos:
                     genos.append(rep.mutate(src, pick(i)))
                 elif act == "xo" and genos:
@@ -182,7 +184,7 @@ def main():
                    ["map", 2], ["map", 5]]
             for ri, (rname, mk) in enumerate(reps):
                 for j in range(2 if quick else 10):
-                    evs = run_sequence(R, g, rname, mk, fam, refined, fresh_ok=ri < 7)
+                    evs = run_sequence(R, g, rname, mk, fam, refined, fresh_ok=True)
                     if evs:
                         batch.trace(f"{spec['id']}/{rname}{ri}/family{j}", evs, {"k": "c07", "refined": refined, "seq": fam})
                         nev += len(evs)
@@ -191,7 +193,7 @@ def main():
                 for j in range(per):
                     seq = seqs[(k * 7 + j * 13 + ri) % len(seqs)]
                     k += 1
-                    evs = run_sequence(R, g, rname, mk, seq, refined, fresh_ok=ri < 7)
+                    evs = run_sequence(R, g, rname, mk, seq, refined, fresh_ok=True)
                     if evs:
                         batch.trace(f"{spec['id']}/{rname}{ri}/{j}", evs, {"k": "c07", "refined": refined, "seq": seq})
                         nev += len(evs)
